@@ -223,7 +223,7 @@ func (e *Engine) InitShared() {
 		in.ps = &PathState{initMode: true, inputNames: map[string]int{}}
 		in.ps.storedGlobals = stored
 		saveSteps := e.maxSteps
-		e.maxSteps = 20000000
+		e.maxSteps = 3000000
 		errMsg := in.runInit(initFn)
 		e.maxSteps = saveSteps
 		if errMsg != "" {
@@ -264,10 +264,15 @@ func (e *Engine) poisonPackage(sp *ssa.Package, why string, stored map[*ssa.Glob
 	if initFn == nil {
 		return
 	}
+	// every global the initialiser touches (directly stored, or initialised element-wise through
+	// its address) is suspect unless its direct store was executed before the failure
 	for _, b := range initFn.Blocks {
 		for _, ins := range b.Instrs {
-			if st, ok := ins.(*ssa.Store); ok {
-				if g, ok := st.Addr.(*ssa.Global); ok && !stored[g] && g.Name() != "init$guard" {
+			for _, op := range ins.Operands(nil) {
+				if op == nil || *op == nil {
+					continue
+				}
+				if g, ok := (*op).(*ssa.Global); ok && g.Pkg == sp && !stored[g] && g.Name() != "init$guard" {
 					e.poisoned[g] = sp.Pkg.Path() + ": " + why
 				}
 			}
